@@ -222,11 +222,23 @@ impl<W: 'static, R: 'static, T: 'static> XGenerator<W, R, T> {
             }),
             Self::Repeat(gen) => either_i({
                 let gen = to_native!(gen, Self);
-                iter::repeat_with(move || {
-                    let inner: BIter<_, _, _> = Box::new(gen._iter(ns, rt.clone()));
-                    inner
+                let mut current: BIter<_, _, _> = Box::new(gen._iter(ns, rt.clone()));
+                // whether the current pass has not yielded anything yet
+                let mut fresh = true;
+                iter::from_fn(move || loop {
+                    match current.next() {
+                        Some(v) => {
+                            fresh = false;
+                            return Some(v);
+                        }
+                        // an entire pass was empty, so is the repetition (as in `Iterator::cycle`)
+                        None if fresh => return None,
+                        None => {
+                            current = Box::new(gen._iter(ns, rt.clone()));
+                            fresh = true;
+                        }
+                    }
                 })
-                .flatten()
             }),
             Self::TakeWhile(gen, func) => either_j({
                 let inner: BIter<_, _, _> = Box::new(to_native!(gen, Self)._iter(ns, rt.clone()));
